@@ -1,7 +1,8 @@
 package ref
 
-// InLSTOpenContent reports whether byte offset pos of a binary stream lies strictly inside the body of a value
-// that a reader of a local symbol table ignores: a non-string element of the symbols list, an import that is
+// InLSTOpenContent reports whether byte offset pos of a binary stream lies inside a value (its type descriptor
+// and length included: a skipped value is never decoded, so neither its body nor its type-specific tag / length
+// rules are looked at) that a reader of a local symbol table ignores: a non-string element of the symbols list, an import that is
 // not a struct, a field of an import other than name / version / max_id (or one of those with an unusable
 // type), or any other field of the table struct (open content). It is a shallow scan over lengths only and is
 // used solely to give such cases their own known-finding signature; it never decides validity.
@@ -84,8 +85,9 @@ func scanHdr(data []byte, p, limit int) (t int, body int, end int, ok bool) {
 	return t, body, end, true
 }
 
-// within reports whether pos is strictly inside the body of the value [start, end) whose body starts at body.
-func within(pos, body, end int) bool { return pos >= body && pos < end }
+// within reports whether pos is inside the ignored value. The callers have already established start <= pos < end,
+// and a value whose own length overruns its container is refused by scanHdr (ion-go notices that one by length).
+func within(pos, body, end int) bool { return pos < end }
 
 func scanLSTBody(data []byte, sb, se, pos int) bool {
 	p := sb
